@@ -13,6 +13,15 @@ PROPS = {
         "vx": ["cone"],
         "level": "proof",
     },
+    "C08": {
+        "vx": ["btor2_lower"],
+        "ax": True,
+        "level": "proof",
+    },
+    "C09": {
+        "vx": ["btor2_roundtrip"],
+        "level": "proof",
+    },
     "C13": {
         "vx": ["meta"],
         "level": "proof",
